@@ -175,13 +175,18 @@ class C06(common.Prop):
                     steps.append(["copy", rng.randrange(nres)])
                     nres += 1
             yield {"steps": steps, "probe": [rng.choice(gnames), rng.choice(["bytes", "bytes", "stream"]), rng.choice([{}, {}, {"start_frame": 1, "end_frame": 2}])]}
+        yield {"steps": [], "probe": ["A", "bytes", {}], "tfgraph": True}
 
     def features(self, case):
+        if case.get("tfgraph"):
+            return ("tf-graph-copy", 0, "-", "-")
         kinds = sorted(set(s[0] for s in case["steps"]))
         muts = sorted(set(s[2] for s in case["steps"] if s[0] == "mutate"))
         return ("+".join(kinds), len(case["steps"]), muts[0] if muts else "-", case["probe"][1])
 
     def nontrivial(self, case):
+        if case.get("tfgraph"):
+            return True
         return any(s[0] == "mutate" for s in case["steps"]) or len(set(s[1] for s in case["steps"] if s[0] == "read")) > 1
 
     # ---------------------------------------------------------------- implementation
@@ -211,7 +216,35 @@ class C06(common.Prop):
                 except Exception:
                     pass
 
+    def run_tfgraph(self, case):
+        """copy() of a TensorFlow body inside a graph (tf.function / Dataset.map): it may refuse (eager tensors are needed for the
+        detaching round trip), but a copy that IS handed out is an object of its own - not the source's masked-tensor wrapper, whose
+        attributes an edit through the copy would re-bind for the source too"""
+        shared = []
+        try:
+            import tensorflow as tf
+            from pose_format.tensorflow.pose_body import TensorflowPoseBody
+            from pose_format.tensorflow.masked.tensor import MaskedTensor
+            with tf.Graph().as_default():
+                d = tf.constant(np.arange(24, dtype=np.float32).reshape(2, 1, 4, 3))
+                m = tf.constant(np.ones((2, 1, 4, 3), dtype=bool))
+                c = tf.constant(np.ones((2, 1, 4), dtype=np.float32))
+                b = TensorflowPoseBody(25.0, MaskedTensor(d, m), c)
+                try:
+                    cp = b.copy()
+                except Exception:
+                    cp = None
+                if cp is not None and cp.data is b.data:
+                    shared.append([0, 1, "tensorflow body: copy().data IS the source's MaskedTensor object"])
+        except Exception:
+            pass
+        case["_impl"] = {"probe": ["-"], "fresh": ["-"], "changed": [], "shared": shared, "touched": []}
+        case["_mut_dumps"], case["_impl_handed"], case["_ncomps"] = [], [], []
+        return {"probe": ["-"], "finals": [], "shared_cells": bool(shared)}
+
     def run_impl(self, case):
+        if case.get("tfgraph"):
+            return self.run_tfgraph(case)
         from pose_format.pose_header import PoseHeaderCache
         PoseHeaderCache.clear_cache()
         self.shared = {}
@@ -310,6 +343,8 @@ class C06(common.Prop):
         return ed
 
     def run_model(self, case, runner):
+        if case.get("tfgraph"):
+            return None
         if case["probe"][0] != "A01":
             g = self.run_graph_model(case, runner)
             if g is not None:
